@@ -51,10 +51,11 @@ for fixes, inv in ((["once"], ("PrevUntouched", "ExactFold", "Resumes")), (["dee
   r = tlc.run("selftest_calib", "Calib", c, invariants=["ExactFold", "PrevUntouched"], workers=8)
   expect("Calib fixes %-12s one of %s violated" % (fixes, inv), any(i in r.violated for i in inv), str(r.violated))
 
-q = lambda s: '"%s"' % s
 for fixes, want in ((["qsvcopy"], False), ([], True)):
-  c = dict(NQ="2", Recipes='{"RA", "RB"}', Datasets='{"D1"}', MaxLen="4", MaxCals="2", NeedsCal='("RA" :> TRUE @@ "RB" :> TRUE)',
-           WritesStats='("RA" :> TRUE @@ "RB" :> FALSE)', StatsOf='("RA" :> {"FC", "TANH"} @@ "RB" :> {"FC"})', Fixes=tlc.tla_str_set(fixes))
+  c = dict(NQ="2", Recipes='{"RA", "RB"}', Policies='{"P0"}', Datasets='{"D1"}', MaxLen="4", MaxCals="2",
+           LoadOutcome='(<<"RA", "P0">> :> <<"ok", "RA">> @@ <<"RB", "P0">> :> <<"ok", "RB">>)', NeedsCal='("RA" :> TRUE @@ "RB" :> TRUE)',
+           WritesStats='(<<"RA", "P0">> :> TRUE @@ <<"RB", "P0">> :> FALSE)', StatsOf='(<<"RA", "P0">> :> {"FC", "TANH"} @@ <<"RB", "P0">> :> {"FC"})',
+           Fixes=tlc.tla_str_set(fixes))
   r = tlc.run("selftest_api", "Api", c, invariants=["ArgsUntouched", "OutputIsFunction"], view="View", workers=8)
   expect("Api fixes %-12s ArgsUntouched %s" % (fixes, "violated" if want else "holds"), ("ArgsUntouched" in r.violated or "OutputIsFunction" in r.violated) == want)
 
